@@ -25,7 +25,9 @@ const (
 	// maxPortLen is the maximum length of a port's decimal representation.
 	maxPortLen = len("65535")
 	// maxHostPortLen is the maximum length of an origin's host-port part.
-	maxHostPortLen = maxHostLen + 1 + maxPortLen // 1 for colon character
+	// Note that maxHostLen does not account for the trailing full stop
+	// of an absolute domain name.
+	maxHostPortLen = maxHostLen + 1 + 1 + maxPortLen // 1 for full stop, 1 for colon character
 )
 
 // Origin represents a (tuple) [Web origin].
